@@ -374,6 +374,23 @@ def keeps (o : Op) (inp : Input) (a : Nat) : Bool :=
   | .optFilter | .optBind => inp.par.headD 0 == 1
   | _ => false
 
+/-- the operations whose program destroys values it took or made (a second failure in `either::apply`, the failures before the
+first success in `first_success`, a half-parsed sequence, the emptied `move_range`) -/
+def drops : Op → Bool
+  | .eithApply2 | .eithFirstSuccess | .parseSequence | .moveRangeMap => true
+  | _ => false
+
+/-! ## the programs of three repaired defects, kept for the refuted examples in Props/C05.lean -/
+
+/-- `either::bind` before fix f5622af, failure alternative: `result_type{_either.get_failure_unsafe()}` — a copy whatever the value category -/
+def oldEithBindFailure : List Instr := [.xfer 0 0 .copy .res]
+
+/-- the `options::flag` constructor before fix 986d19b: both values are moved into the members, then the (moved-from) arguments are compared -/
+def oldOptsFlag : List Instr := [.xfer 0 0 .move .res, .xfer 1 0 .move .res, .read 0 0, .read 1 0]
+
+/-- `optional::to_container` before fix 9030486: the element of the source itself went to `container::make`, which moves out of it -/
+def oldOptToContainer (n : Nat) : List Instr := xferAll 0 n .move .res
+
 /-- the outcome of an operation: the machine state after its program -/
 def exec (o : Op) (inp : Input) : St := run (prog o inp) (St.init (inp.args.map (·.2)))
 
